@@ -1,9 +1,13 @@
 """C13 - FIPS build fails closed (CBMC on the real API wrapper TUs, -DFIPS_MODE)."""
 import apicheck
+import c17
 
 
 def run(tier):
     ev, vd = apicheck.run("C13", "c13", tier)
+    # the verdict that the wrappers consult must itself be sticky and fail-closed: real isal_self_tests() +
+    # the lifted status/claim assembly under all 2/3-thread interleavings (shared with C17)
+    c17.protocol("C13", tier, ev, vd, only_quick_configs=True)
     ev.assume("isal_self_tests() is modelled by a ghost state machine following FIPS.md (not-run -> passed|failed, sticky); the real function is verified under C17",
               "otherwise-valid arguments: every pointer refers to a live object of the documented size, scalars inside their documented domain",
               "approved / non-approved classification of each entry point is spec/api_domain.py (from FIPS.md); an unclassified new entry point makes the check inconclusive")
